@@ -29,7 +29,7 @@ struct SchedConfig {
     uint64_t pct_len   = 64;      // horizon (decisions) over which change points are placed
     int      starve    = 0;       // starve key (tid / rank) for STARVE
     double   preempt_p = 0;       // trace build: probability of a preemption at an instrumented access
-    uint64_t max_decisions = 50000000ULL;   // tick budget (bounded liveness / runaway guard)
+    uint64_t max_decisions = 2000000000ULL;   // tick budget (bounded liveness / runaway guard)
     std::vector<deviation> deviations;       // EXPLICIT: replay exactly these deviations from canonical
 };
 
